@@ -39,8 +39,10 @@ META = dict(
 OPS = ("<", "<=", ">", ">=", "=", "==", "!=")
 # D of DESIGN.md plus one value that differs from 0.3 only beyond float precision (float("0.3") == float(D_EXTRA))
 D_EXTRA = "0.300000000000000000001"
-D_THOROUGH = ("0", "1", "-1", "0.1", "0.3", "0.30000000000000004", D_EXTRA, "100", "12345.678", "1e-9", "1e12")
-D_QUICK = ("0", "1", "0.3", "0.30000000000000004", D_EXTRA)
+# ... plus other spellings of the same numbers (a float tag value prints as '1.0', a method literal may read '+1', '1e0', '-0')
+SPELLINGS = ("1.0", "+1", "1e0", "-0")
+D_THOROUGH = ("0", "1", "-1", "0.1", "0.3", "0.30000000000000004", D_EXTRA, "100", "12345.678", "1e-9", "1e12", "1E2", "100.0") + SPELLINGS
+D_QUICK = ("0", "1", "0.3", "0.30000000000000004", D_EXTRA) + SPELLINGS
 
 # ---------------------------------------------------------------------------------------------------------------------
 # exact reference: quantity -> unit -> (factor, offset); value in the quantity's reference unit = v * factor + offset
